@@ -29,6 +29,16 @@ CHECKS = {
    text="O1 int_div_ceil = ceil when the quotient fits u32 and panics only on a zero divisor (all u64 pairs); O2 the real kl closure equals max{K'<=WS/(Al*ceil(T/(Al*n)))} and never panics for every (T,Al,n,WS) its caller can pass when N_max is feasible (WS over all of u64, all 477 rows unrolled); O2b monotonicity/bounds lemmas of KL; O3 with kl under that contract the returned (T,Z,N,Al) equal the RFC 4.3 derivation written in unbounded integers and nothing panics whenever a valid configuration exists; O4 a larger budget never yields more blocks. O3/O4: F and WS symbolic over u64, every packet size P' <= 319 (quick) / 1087 (thorough) enumerated, both overflow-check settings.",
    note="Trusted: vlib/mir.py and its std models; the paper step composing O2 with O3/O4 (KLfun uninterpreted + O2b lemmas); Lemma A (valid => F <= 255*56403*T, its own query) justifies executing O3/O4 with F ranged; P' above the bound and the round-trip clause are outside (C01/C05).",
    design="§4 C14"),
+ "C06": dict(level="translation_validation", engine="E3 cvc5 finite-field SMT (+z3) over programs emitted by the real solver",
+   technique="translation validation: each operation program the real PI solver emits (dense/sparse back-end, direct solve and plan, debug and release) is recorded through the cfg-guarded hook and proved, by a cvc5 finite-field (F_2) query with all source data symbolic, to produce symbols satisfying every LDPC, HDPC and LT relation of an independent RFC 6330 transcription",
+   text="For every Table-2 row up to the bound (quick K'<=55: 13 rows / 26 distinct programs; thorough K'<=257: 46 rows) the emitted program is validated for ALL data (unsat of 'some relation violated'), on both matrix back-ends, for direct solve and plan replay and for debug-assertion and release builds; the real code's own result on tagged data is additionally checked concretely, as is a padded block per row; rows above the bound are only built (release). A non-proved certificate goes to z3 for concrete data, replayed through SourceBlockEncoder::new.",
+   note="Trusted: vlib/rfc.py (RFC transcription) over pinned tables; the F_2 semantics of the four op kinds (tied to the kernels by C09-C11 and cross-checked by replaying each program in the checker against the real result); cvc5 1.4's FF solver; programs come from concrete runs (the solver's control flow is data-independent).",
+   design="§2 E3, §4 C06"),
+ "C04": dict(level="translation_validation", engine="E3 + E1 kani + E2",
+   technique="translation validation of the encoder's operation programs by finite-field SMT for all data; Kani harness showing enc_into xors exactly the symbols Enc[] selects for every in-range tuple (one-hot slab); MIR->SMT equality of intermediate_tuple with Tuple[K',X] for all rows and ids; concrete packet differential against the transcription",
+   text="(1) programs behind SourceBlockEncoder::new / with_encoding_plan validated for all data for every K' up to the bound => intermediate symbols are the RFC's unique C; (2) Kani: for the K'=10 geometry and every in-range tuple the result of enc_into on a one-hot slab equals the GF(2) coefficient vector of an independent Enc[] transcription (identity and permuted slab); (3) E2: tuple == RFC Tuple for rows K'<=600 (quick) / all 477 (thorough), X symbolic; (4) concrete: real source/repair packets (ESIs K.., 2^24-1, seeded) equal the transcription's byte for byte.",
+   note="Trusted: as C06 plus the paper composition of (1)-(3); ESI->ISI offset and source packet identity are only observed concretely in (4); T>1 rests on C09/C11.",
+   design="§4 C04"),
 }
 
 NOT_APPLICABLE = {
